@@ -1191,6 +1191,18 @@ fn directed_case(
             victim: 1, target, count: 0, parked: false, released: false,
             site: "",
         });
+        // the victim is a task of the queue: scheduled, claimed (so that it
+        // is the queue's RUNNING entry of that name while it is parked) and
+        // completed afterwards as the scheduler does
+        let _ = w.krill.tasks().schedule(vtask.clone(), krill::server::mq::now());
+        let vkey = w.pending().into_iter()
+            .find(|p| p.1.contains(if vname == "rrdp_update" { "rrdp" }
+                                   else { "snapshot" }))
+            .map(|p| p.2);
+        let claimed = vkey.as_ref().map(|k| w.claim_only(k)).unwrap_or(false);
+        let running_key = if claimed {
+            w.running().into_iter().map(|p| p.2).next()
+        } else { None };
         let slow = w.slow.clone();
         let started = w.started;
         let vt = vtask.clone();
@@ -1234,8 +1246,8 @@ fn directed_case(
                         ca_handle: h(ca), ca_version: 0,
                     }, started);
                 }
-                let _ = verif_process_task(
-                    &slow2, Task::RrdpUpdateIfNeeded, started);
+                // (the RRDP update that follows is the scheduler's business:
+                // the publication has queued it, it runs after the release)
                 add
             })
         });
@@ -1252,6 +1264,11 @@ fn directed_case(
         DIRECTED_CV.notify_all();
         let vres = victim.join();
         let ires = intruder.join();
+        if let Some(k) = &running_key {
+            if let Ok(id) = Ident::from_str(k) {
+                let _ = w.krill.tasks().finish(id);
+            }
+        }
         let count = DIRECTED.lock().unwrap().as_ref().map(|d| d.count).unwrap_or(0);
         *DIRECTED.lock().unwrap() = None;
         let wit = json!({"victim": vname, "parked_after_yield_points": target,
@@ -1283,6 +1300,30 @@ fn directed_case(
         if !live.0["a"].iter().any(|x| x.starts_with("10.9.0.0/24")) {
             return Ok((count, Some(("directed:acknowledged-command-lost".into(),
                 format!("a: {:?}", live.0["a"]), wit))))
+        }
+        // what the publication server accepted while the task was parked is
+        // served once everything has settled (its follow-up was scheduled
+        // while a task of the same name was running)
+        match kvh::rrdpview::read_rrdp(&w.repo_dir()) {
+            Ok(st) => {
+                let want: BTreeMap<String, Vec<u8>> = w.publisher_files()
+                    .into_iter().map(|(u, b)| (u, b.to_vec())).collect();
+                r.eval();
+                if st.snapshot != want {
+                    let diff: Vec<&String> = want.keys()
+                        .filter(|u| st.snapshot.get(*u) != want.get(*u))
+                        .chain(st.snapshot.keys()
+                               .filter(|u| !want.contains_key(*u)))
+                        .take(5).collect();
+                    return Ok((count, Some((
+                        "directed:accepted-content-not-served".into(),
+                        format!("after the queue became idle the RRDP snapshot \
+                                 (serial {}) differs from the accepted content \
+                                 in {diff:?}", st.serial), wit))))
+                }
+            }
+            Err(e) => return Ok((count, Some((
+                "directed:notification-unusable".into(), e, wit)))),
         }
         drop(w);
         // a second instance on the same directory shows the same
